@@ -1,3 +1,349 @@
-//! C19 bounded native checks (not written yet)
-use super::Report;
-pub fn run() -> Option<Report> { None }
+//! C19 bounded: "basis, frame and plane constructions are orthonormal and right-handed", evaluated on the REAL code.
+//! Planes: 6 non-collinear integer point triples, 4 (normal, point) pairs, 4 query points.  Principal axes: 7 point sets
+//! in 3D (generic, generic weighted, planar, collinear, coincident) and 4 in 2D, weights from {0.5, 1, 2, 3, 4}, weight
+//! scale factors {2, 0.5, 8}, the 76 isometries of the C03 bounded check for the equivariance clause.  Frame
+//! constructors: the six try_from_basis_* on 5 x 6 vector pairs (skew, different lengths, one nearly parallel pair), 3
+//! origins, 6 parallel / zero pairs.  Singular vectors are compared up to sign, and only where the singular values are
+//! separated (the SVD does not determine them otherwise).  All float comparisons: 1e-9 relative (`close`).
+use super::c03::isos3;
+use super::{close, Report};
+use crate::common::svd_basis::{iso2_from_basis, iso3_from_basis, iso3_from_xyo};
+use crate::geom2::{Iso2, Point2, SvdBasis2, Vector2};
+use crate::geom3::{Iso3, IsoExtensions3, Plane3, Point3, SurfacePoint3, SvdBasis3, UnitVec3, Vector3};
+use parry3d_f64::na::Matrix3;
+
+const E: f64 = 1e-9;
+fn p3(x: f64, y: f64, z: f64) -> Point3 { Point3::new(x, y, z) }
+fn v3(x: f64, y: f64, z: f64) -> Vector3 { Vector3::new(x, y, z) }
+fn cp3(a: &Point3, b: &Point3) -> bool { close(a.x, b.x) && close(a.y, b.y) && close(a.z, b.z) }
+fn cv3(a: &Vector3, b: &Vector3) -> bool { close(a.x, b.x) && close(a.y, b.y) && close(a.z, b.z) }
+fn cp2(a: &Point2, b: &Point2) -> bool { close(a.x, b.x) && close(a.y, b.y) }
+fn cv2(a: &Vector2, b: &Vector2) -> bool { close(a.x, b.x) && close(a.y, b.y) }
+fn same_up_to_sign3(a: &Vector3, b: &Vector3) -> bool { cv3(a, b) || cv3(a, &(-b)) }
+// clauses about singular VALUES of rank-deficient point sets (collinear, coincident, planar in 3D) carry their own name:
+// nalgebra's SVD is inaccurate there (see the known finding), and a failure must not mask the full-rank clauses
+fn nm(base: &str, deficient: bool) -> String { if deficient { format!("{} [rank-deficient point set]", base) } else { base.to_string() } }
+fn same_up_to_sign2(a: &Vector2, b: &Vector2) -> bool { cv2(a, b) || cv2(a, &(-b)) }
+
+// ------------------------------------------------------------------------------------------------ planes
+fn planes(r: &mut Report) {
+    let qs = [p3(1.0, 2.0, 3.0), p3(-0.5, 0.25, 4.0), p3(2.0, -3.0, 0.5), p3(0.0, 0.0, 0.0)];
+    let scale = |p: &Point3| 1.0 + p.coords.norm();
+    let triples = [
+        (p3(0.0, 0.0, 0.0), p3(1.0, 0.0, 0.0), p3(0.0, 1.0, 0.0)), (p3(1.0, 2.0, 3.0), p3(4.0, 0.0, 1.0), p3(-2.0, 1.0, 5.0)),
+        (p3(0.5, 0.5, 0.5), p3(0.5, 2.5, 0.5), p3(0.5, 0.5, -1.0)), (p3(3.0, -1.0, 2.0), p3(3.0, 4.0, 6.0), p3(-1.0, -1.0, 2.0)),
+        (p3(0.0, 0.0, 1.0), p3(0.0, 1.0, 0.0), p3(1.0, 0.0, 0.0)), (p3(10.0, 10.0, 10.0), p3(11.0, 10.0, 10.5), p3(10.0, 12.0, 10.25)),
+    ];
+    let mut pls: Vec<(String, Plane3)> = vec![];
+    for (a, b, c) in triples.iter() {
+        r.case();
+        let pl = Plane3::from((a, b, c));
+        let d = || format!("Plane3::from(({:?}, {:?}, {:?}))", a.coords.as_slice(), b.coords.as_slice(), c.coords.as_slice());
+        r.check(close(pl.normal.norm(), 1.0), "plane from three points: the normal is a unit vector", d);
+        for p in [a, b, c] { r.check(pl.signed_distance_to_point(p).abs() <= E * scale(p), "plane from three points contains its defining points", d); }
+        for p in [a, b, c] { r.check(cp3(&pl.project_point(p), p), "plane from three points projects its defining points onto themselves", d); }
+        pls.push((d(), pl));
+    }
+    let nps = [(v3(0.0, 0.0, 1.0), p3(1.0, 2.0, 3.0)), (v3(1.0, 2.0, 2.0), p3(0.5, -1.0, 2.0)), (v3(2.0, -1.0, 2.0), p3(0.0, 0.0, 0.0)), (v3(1.0, 1.0, 0.0), p3(-3.0, 4.0, 0.25))];
+    for (n, p) in nps.iter() {
+        r.case();
+        let u = UnitVec3::new_normalize(*n);
+        let pl = Plane3::from((&u, p));
+        let d = || format!("Plane3::from((normalize {:?}, {:?}))", n.as_slice(), p.coords.as_slice());
+        r.check(pl.signed_distance_to_point(p).abs() <= E * scale(p), "plane from point and normal contains its defining point", d);
+        r.check(cv3(&pl.normal, &u), "plane from point and normal has the given normal", d);
+        r.check(cp3(&pl.project_point(p), p), "plane from point and normal projects its defining point onto itself", d);
+        let sp = SurfacePoint3::new(*p, u);
+        let ps = Plane3::from(&sp);
+        r.check(ps.signed_distance_to_point(p).abs() <= E * scale(p) && cv3(&ps.normal, &u), "plane from a surface point contains the point and has its normal", d);
+        r.check(cp3(&ps.project_point(p), p), "plane from a surface point projects its defining point onto itself", d);
+        for l in [-2.0, 0.5, 3.0] { r.check(close(ps.signed_distance_to_point(&sp.at_distance(l)), l), "plane from a surface point: signed distance of point + l * normal is l", || format!("{} l = {}", d(), l)); }
+        pls.push((d(), pl));
+    }
+    for (name, pl) in pls.iter() {
+        let inv = pl.inverted_normal();
+        for q in qs.iter() {
+            r.case();
+            let d = || format!("{} query {:?}", name, q.coords.as_slice());
+            let pr = pl.project_point(q);
+            r.check(pl.signed_distance_to_point(&pr).abs() <= E * scale(q), "project_point lands on the plane", d);
+            r.check(cp3(&pl.project_point(&pr), &pr), "project_point is idempotent", d);
+            r.check(close((q - pr).norm(), pl.distance_to_point(q)), "project_point moves the point by exactly its distance to the plane", d);
+            r.check(close(pl.distance_to_point(q), pl.signed_distance_to_point(q).abs()), "distance_to_point is the absolute signed distance", d);
+            r.check(close(inv.signed_distance_to_point(q), -pl.signed_distance_to_point(q)), "inverted_normal flips the signed distance", d);
+            r.check(cp3(&inv.project_point(q), &pr), "inverted_normal keeps the plane in the same position", d);
+        }
+    }
+}
+
+// ------------------------------------------------------------------------------------------------ principal axes
+struct Set3 { name: &'static str, pts: Vec<Point3>, w: Option<Vec<f64>>, rank: usize }
+fn sets3() -> Vec<Set3> {
+    let generic = vec![p3(0.0, 0.0, 0.0), p3(4.0, 0.0, 0.0), p3(4.0, 2.0, 0.0), p3(0.0, 2.0, 1.0), p3(1.0, 1.0, 3.0), p3(3.0, -1.0, 0.5)];
+    let skew = vec![p3(1.0, 2.0, 3.0), p3(5.0, 4.0, 3.5), p3(-3.0, 0.5, 2.0), p3(2.0, 6.0, 4.0), p3(0.0, -2.0, 1.0)];
+    let planar = vec![p3(0.0, 0.0, 0.0), p3(4.0, 0.0, 0.0), p3(4.0, 2.0, 0.0), p3(0.0, 2.0, 0.0), p3(1.0, 1.0, 0.0)];
+    let collinear = vec![p3(0.0, 0.0, 0.0), p3(1.0, 2.0, 2.0), p3(2.0, 4.0, 4.0), p3(4.0, 8.0, 8.0)];
+    let coincident = vec![p3(1.0, 2.0, 3.0); 4];
+    vec![
+        Set3 { name: "generic", pts: generic.clone(), w: None, rank: 3 },
+        Set3 { name: "generic weighted", pts: generic.clone(), w: Some(vec![1.0, 2.0, 0.5, 4.0, 1.0, 3.0]), rank: 3 },
+        Set3 { name: "skew", pts: skew.clone(), w: None, rank: 3 },
+        Set3 { name: "skew weighted", pts: skew, w: Some(vec![2.0, 1.0, 1.0, 0.5, 3.0]), rank: 3 },
+        Set3 { name: "planar", pts: planar.clone(), w: None, rank: 2 },
+        Set3 { name: "planar weighted", pts: planar, w: Some(vec![1.0, 2.0, 3.0, 4.0, 0.5]), rank: 2 },
+        Set3 { name: "collinear", pts: collinear, w: None, rank: 1 },
+        Set3 { name: "coincident", pts: coincident, w: None, rank: 0 },
+    ]
+}
+fn wmean3(pts: &[Point3], w: Option<&[f64]>) -> Point3 {
+    let mut s = Vector3::zeros(); let mut t = 0.0;
+    for (i, p) in pts.iter().enumerate() { let wi = w.map_or(1.0, |w| w[i]); s += p.coords * wi; t += wi; }
+    Point3::from(s / t)
+}
+fn sv_separated(sv: &[f64], i: usize) -> bool {
+    let top = sv[0].max(1e-300);
+    sv[i] > 1e-3 * top && (0..sv.len()).all(|j| j == i || (sv[i] - sv[j]).abs() > 1e-3 * top)
+}
+fn basis_checks3(r: &mut Report, b: &SvdBasis3, d: &dyn Fn() -> String) {
+    for i in 0..3 { for j in i..3 {
+        let e = if i == j { 1.0 } else { 0.0 };
+        r.check((b.basis[i].dot(&b.basis[j]) - e).abs() <= E, "principal axes: the basis vectors are orthonormal", || format!("{} (b{}.b{} = {})", d(), i, j, b.basis[i].dot(&b.basis[j])));
+    } }
+    r.check(b.sv[0] >= b.sv[1] && b.sv[1] >= b.sv[2] && b.sv[2] >= 0.0, "principal axes: singular values are non-negative and non-increasing", || format!("{} sv = {:?}", d(), b.sv));
+}
+fn svd3(r: &mut Report) {
+    let qs = [p3(1.0, 2.0, 3.0), p3(-0.5, 0.25, 4.0), p3(2.0, -3.0, 0.5)];
+    let isos = isos3();
+    for s in sets3().iter() {
+        r.case();
+        let w = s.w.as_deref();
+        let d = || format!("SvdBasis3::from_points({:?}, weights = {:?}) [{}]", s.pts.iter().map(|p| (p.x, p.y, p.z)).collect::<Vec<_>>(), s.w, s.name);
+        let b = SvdBasis3::from_points(&s.pts, w);
+        let c = wmean3(&s.pts, w);
+        r.check(cp3(&b.center, &c), "principal axes: the centre is the (weighted) mean", d);
+        r.check(b.n == s.pts.len(), "principal axes: n is the number of points", d);
+        basis_checks3(r, &b, &d);
+        // sv_i^2 / n == variance of the points along axis i (unweighted sets; for weighted sets the decomposed rows are w_i (p_i - c))
+        let var = b.basis_variances(); let sd = b.basis_stdevs();
+        for i in 0..3 {
+            let along: f64 = s.pts.iter().enumerate().map(|(k, p)| { let wk = w.map_or(1.0, |w| w[k]); (wk * b.basis[i].dot(&(p - c))).powi(2) }).sum::<f64>() / s.pts.len() as f64;
+            r.check((b.sv[i].powi(2) / s.pts.len() as f64 - along).abs() <= E * (1.0 + along) && (var[i] - along).abs() <= E * (1.0 + along), &nm("principal axes: sv^2 / n equals the variance of the (weighted) centred points along each axis", s.rank < 3), || format!("{} axis {}", d(), i));
+            r.check((sd[i] - along.sqrt()).abs() <= 1e-7 * (1.0 + along.sqrt()), "principal axes: basis_stdevs is the square root of the variance", || format!("{} axis {}", d(), i));
+        }
+        r.check(b.rank(1e-9 * (1.0 + b.sv[0])) == s.rank, "principal axes: the rank reflects the dimension of the point set", d);
+        // round trip through the basis
+        for q in qs.iter().chain(s.pts.iter()) {
+            let dq = || format!("{} point {:?}", d(), q.coords.as_slice());
+            r.check(cp3(&b.point_from_basis(&b.point_to_basis(q)), q), "principal axes: point_from_basis(point_to_basis(p)) == p", dq);
+            r.check(cp3(&b.point_to_basis(&b.point_from_basis(q)), q), "principal axes: point_to_basis(point_from_basis(p)) == p", dq);
+            r.check(close(b.point_to_basis(q).coords.norm(), (q - b.center).norm()), "principal axes: point_to_basis keeps the distance to the centre", dq);
+            r.check(close(b.vec_to_basis(&q.coords).norm(), q.coords.norm()), "principal axes: vec_to_basis keeps the length", dq);
+        }
+        r.check(b.point_to_basis(&b.center).coords.norm() <= E, "principal axes: the centre has basis coordinates 0", d);
+        if s.rank >= 1 { r.check(cv3(&b.largest().into_inner(), &b.basis[0]) && cv3(&b.smallest().into_inner(), &b.basis[2]), "principal axes: largest / smallest are the first / last basis vector", d); }
+        // the frame of the basis: a proper rotation taking the centre to the origin and the first two axes to x and y
+        if s.rank == 3 {
+            let f = Iso3::from(&b);
+            let m: Matrix3<f64> = f.rotation.to_rotation_matrix().into_inner();
+            r.check(((m.transpose() * m) - Matrix3::identity()).norm() <= E && close(m.determinant(), 1.0), "Iso3::from(&SvdBasis3) is a proper rotation", d);
+            r.check((f * b.center).coords.norm() <= E * (1.0 + b.center.coords.norm()), "Iso3::from(&SvdBasis3) takes the centre to the origin", d);
+            r.check(cp3(&(f * (b.center + b.basis[0])), &p3(1.0, 0.0, 0.0)) && cp3(&(f * (b.center + b.basis[1])), &p3(0.0, 1.0, 0.0)), "Iso3::from(&SvdBasis3) takes the first two principal axes to x and y", d);
+            r.check(cp3(&(f * (b.center + b.basis[0].cross(&b.basis[1]))), &p3(0.0, 0.0, 1.0)), "Iso3::from(&SvdBasis3) is right-handed (b0 x b1 goes to z)", d);
+        }
+        // unchanged by uniformly scaling all weights
+        for k in [2.0, 0.5, 8.0] {
+            let w2: Vec<f64> = (0..s.pts.len()).map(|i| k * w.map_or(1.0, |w| w[i])).collect();
+            let b2 = SvdBasis3::from_points(&s.pts, Some(&w2));
+            let dk = || format!("{} all weights x {}", d(), k);
+            r.check(cp3(&b2.center, &b.center), "principal axes: the centre is unchanged by uniformly scaling all weights", dk);
+            basis_checks3(r, &b2, &dk);
+            for i in 0..3 {
+                r.check((b2.sv[i] - k * b.sv[i]).abs() <= E * (1.0 + k * b.sv[0]), "principal axes: scaling all weights by k scales the singular values by k", dk);
+                if sv_separated(&b.sv, i) { r.check(same_up_to_sign3(&b2.basis[i], &b.basis[i]), "principal axes: the basis is unchanged (up to sign) by uniformly scaling all weights", || format!("{} axis {}", dk(), i)); }
+            }
+        }
+        // equivariance under rigid motion
+        for it in isos.iter() { let t = &it.t;
+            let moved: Vec<Point3> = s.pts.iter().map(|p| t * p).collect();
+            let bm = SvdBasis3::from_points(&moved, w);
+            let dt = || format!("{} {}", d(), it.name);
+            r.check(cp3(&bm.center, &(t * b.center)), "principal axes: the centre moves with a rigid motion of the points", dt);
+            basis_checks3(r, &bm, &dt);
+            let cm = t * c;
+            for i in 0..3 {
+                r.check((bm.sv[i] - b.sv[i]).abs() <= E * (1.0 + b.sv[0]), &nm("principal axes: singular values are invariant under a rigid motion of the points", s.rank < 3), dt);
+                let along: f64 = moved.iter().enumerate().map(|(k, p)| { let wk = w.map_or(1.0, |w| w[k]); (wk * bm.basis[i].dot(&(p - cm))).powi(2) }).sum::<f64>() / moved.len() as f64;
+                r.check((bm.sv[i].powi(2) / moved.len() as f64 - along).abs() <= E * (1.0 + along), &nm("principal axes: sv^2 / n equals the variance of the (weighted) centred points along each axis", s.rank < 3), || format!("{} axis {}", dt(), i));
+                if sv_separated(&b.sv, i) { r.check(same_up_to_sign3(&bm.basis[i], &(t * b.basis[i])), "principal axes: the basis vectors rotate (up to sign) with a rigid motion of the points", || format!("{} axis {}", dt(), i)); }
+            }
+            r.check(bm.rank(1e-9 * (1.0 + bm.sv[0])) == s.rank, "principal axes: the rank is invariant under a rigid motion of the points", dt);
+        }
+    }
+}
+fn svd2(r: &mut Report) {
+    let p2 = |x: f64, y: f64| Point2::new(x, y);
+    let sets: Vec<(&str, Vec<Point2>, Option<Vec<f64>>, usize)> = vec![
+        ("generic", vec![p2(0.0, 0.0), p2(4.0, 0.0), p2(4.0, 2.0), p2(1.0, 3.0)], None, 2),
+        ("generic weighted", vec![p2(0.0, 0.0), p2(4.0, 0.0), p2(4.0, 2.0), p2(1.0, 3.0)], Some(vec![1.0, 2.0, 0.5, 4.0]), 2),
+        ("collinear", vec![p2(0.0, 0.0), p2(3.0, 4.0), p2(6.0, 8.0)], None, 1),
+        ("coincident", vec![p2(1.0, 2.0); 3], None, 0),
+    ];
+    for (name, pts, w, rank) in sets.iter() {
+        r.case();
+        let wr = w.as_deref();
+        let d = || format!("SvdBasis2::from_points({:?}, weights = {:?}) [{}]", pts.iter().map(|p| (p.x, p.y)).collect::<Vec<_>>(), w, name);
+        let b = SvdBasis2::from_points(pts, wr);
+        let mut s = Vector2::zeros(); let mut tw = 0.0;
+        for (i, p) in pts.iter().enumerate() { let wi = wr.map_or(1.0, |w| w[i]); s += p.coords * wi; tw += wi; }
+        let c = Point2::from(s / tw);
+        r.check(cp2(&b.center, &c), "principal axes 2D: the centre is the (weighted) mean", d);
+        r.check((b.basis[0].dot(&b.basis[0]) - 1.0).abs() <= E && (b.basis[1].dot(&b.basis[1]) - 1.0).abs() <= E && b.basis[0].dot(&b.basis[1]).abs() <= E, "principal axes 2D: the basis vectors are orthonormal", d);
+        r.check(b.sv[0] >= b.sv[1] && b.sv[1] >= 0.0, "principal axes 2D: singular values are non-negative and non-increasing", d);
+        for i in 0..2 {
+            let along: f64 = pts.iter().enumerate().map(|(k, p)| { let wk = wr.map_or(1.0, |w| w[k]); (wk * b.basis[i].dot(&(p - c))).powi(2) }).sum::<f64>() / pts.len() as f64;
+            r.check((b.basis_variances()[i] - along).abs() <= E * (1.0 + along), &nm("principal axes 2D: sv^2 / n equals the variance of the (weighted) centred points along each axis", *rank < 2), || format!("{} axis {}", d(), i));
+        }
+        r.check(b.rank(1e-9 * (1.0 + b.sv[0])) == *rank, "principal axes 2D: the rank reflects the dimension of the point set", d);
+        for q in [p2(1.0, 2.0), p2(-0.5, 0.25)].iter().chain(pts.iter()) {
+            r.check(cp2(&b.point_from_basis(&b.point_to_basis(q)), q) && cp2(&b.point_to_basis(&b.point_from_basis(q)), q), "principal axes 2D: to-basis / from-basis round trip", || format!("{} point {:?}", d(), q.coords.as_slice()));
+        }
+        for k in [2.0, 0.5, 8.0] {
+            let w2: Vec<f64> = (0..pts.len()).map(|i| k * wr.map_or(1.0, |w| w[i])).collect();
+            let b2 = SvdBasis2::from_points(pts, Some(&w2));
+            let dk = || format!("{} all weights x {}", d(), k);
+            r.check(cp2(&b2.center, &b.center), "principal axes 2D: the centre is unchanged by uniformly scaling all weights", dk);
+            for i in 0..2 { if sv_separated(&b.sv, i) { r.check(same_up_to_sign2(&b2.basis[i], &b.basis[i]), "principal axes 2D: the basis is unchanged (up to sign) by uniformly scaling all weights", dk); } }
+        }
+        for it in super::c03::isos2().iter() { let t = &it.t;
+            let moved: Vec<Point2> = pts.iter().map(|p| t * p).collect();
+            let bm = SvdBasis2::from_points(&moved, wr);
+            let dt = || format!("{} {}", d(), it.name);
+            r.check(cp2(&bm.center, &(t * b.center)), "principal axes 2D: the centre moves with a rigid motion of the points", dt);
+            let cm = t * c;
+            for i in 0..2 {
+                r.check((bm.sv[i] - b.sv[i]).abs() <= E * (1.0 + b.sv[0]), &nm("principal axes 2D: singular values are invariant under a rigid motion of the points", *rank < 2), dt);
+                let along: f64 = moved.iter().enumerate().map(|(k, p)| { let wk = wr.map_or(1.0, |w| w[k]); (wk * bm.basis[i].dot(&(p - cm))).powi(2) }).sum::<f64>() / moved.len() as f64;
+                r.check((bm.sv[i].powi(2) / moved.len() as f64 - along).abs() <= E * (1.0 + along), &nm("principal axes 2D: sv^2 / n equals the variance of the (weighted) centred points along each axis", *rank < 2), dt);
+                if sv_separated(&b.sv, i) { r.check(same_up_to_sign2(&bm.basis[i], &(t * b.basis[i])), "principal axes 2D: the basis vectors rotate (up to sign) with a rigid motion of the points", dt); }
+            }
+        }
+        if *rank == 2 {
+            let f: Iso2 = Iso2::from(&b);
+            r.check((f * b.center).coords.norm() <= E * (1.0 + b.center.coords.norm()) && cp2(&(f * (b.center + b.basis[0])), &p2(1.0, 0.0)), "Iso2::from(&SvdBasis2) takes the centre to the origin and the first axis to x", d);
+            let f2 = iso2_from_basis(&b.basis, &b.center);
+            r.check(cp2(&(f2 * (b.center + Vector2::new(-b.basis[0].y, b.basis[0].x))), &p2(0.0, 1.0)), "iso2_from_basis is right-handed (the first axis turned by +90 degrees goes to y)", d);
+        }
+    }
+}
+
+// ------------------------------------------------------------------------------------------------ frame constructors
+// the frame the statement asks for: primary axis = normalised first argument, secondary axis = the part of the second
+// argument orthogonal to it (normalised), third axis completing a right-handed frame; columns in x, y, z order
+fn expected_frame(a: &Vector3, b: &Vector3, pi: usize, si: usize) -> Matrix3<f64> {
+    let prim = a.normalize();
+    let sec = (b - prim * b.dot(&prim)).normalize();
+    let ti = 3 - pi - si;
+    let sign = if (pi + 1) % 3 == si { 1.0 } else { -1.0 };
+    let third = prim.cross(&sec) * sign;
+    let mut cols = [Vector3::zeros(); 3];
+    cols[pi] = prim; cols[si] = sec; cols[ti] = third;
+    Matrix3::from_columns(&cols)
+}
+fn is_half_turn(m: &Matrix3<f64>) -> bool { (m.trace() + 1.0).abs() < 1e-6 }
+const HALF_TURN3: &str = "frame constructor, requested frame exactly a half turn away from the world axes: returns that frame (proper rotation, primary and secondary axis as requested)";
+const HALF_TURN_B3: &str = "iso3_from_basis / Iso3::from(&SvdBasis3), basis exactly a half turn away from the world axes: takes origin, first and second axis to 0, x, y";
+const HALF_TURN_B2: &str = "iso2_from_basis / Iso2::from(&SvdBasis2), first axis exactly (-1, 0): takes the origin to 0 and the first axis to x";
+fn frames(r: &mut Report) {
+    type Ctor = fn(&Vector3, &Vector3, Option<Point3>) -> crate::Result<Iso3>;
+    let ctors: [(&str, Ctor, usize, usize); 6] = [
+        ("try_from_basis_xy", Iso3::try_from_basis_xy, 0, 1), ("try_from_basis_xz", Iso3::try_from_basis_xz, 0, 2), ("try_from_basis_yz", Iso3::try_from_basis_yz, 1, 2),
+        ("try_from_basis_yx", Iso3::try_from_basis_yx, 1, 0), ("try_from_basis_zx", Iso3::try_from_basis_zx, 2, 0), ("try_from_basis_zy", Iso3::try_from_basis_zy, 2, 1),
+    ];
+    let firsts = [v3(1.0, 0.0, 0.0), v3(-2.0, 0.0, 0.0), v3(0.0, 1.0, 0.0), v3(0.0, -1.0, 0.0), v3(0.0, 0.0, 0.5), v3(0.0, 0.0, -3.0),
+        v3(1.0, 1.0, 0.0), v3(1.0, 2.0, 2.0), v3(0.5, -0.25, 2.0), v3(-1.0, 0.0, 1.0)];
+    let seconds = [v3(1.0, 0.0, 0.0), v3(-1.0, 0.0, 0.0), v3(0.0, 4.0, 0.0), v3(0.0, -1.0, 0.0), v3(0.0, 0.0, 1.0), v3(0.0, 0.0, -0.5),
+        v3(0.0, 1.0, 1.0), v3(2.0, -1.0, 0.5), v3(1.0, 1.0, 1.0), v3(-1.0, -1.0, 0.25), v3(0.0, 0.0, 0.0)];
+    let origins = [None, Some(p3(1.0, 2.0, 3.0)), Some(p3(-100.0, 0.5, 0.0))];
+    let axes = [v3(1.0, 0.0, 0.0), v3(0.0, 1.0, 0.0), v3(0.0, 0.0, 1.0)];
+    for (cname, ctor, pi, si) in ctors.iter() {
+        for a in firsts.iter() { for (k, b0) in seconds.iter().enumerate() {
+            // the last "second" is a nearly parallel companion of the first argument: a + 1e-3 * (a x (1, 2, 3))
+            let b = if k + 1 == seconds.len() { a + a.cross(&v3(1.0, 2.0, 3.0)) * 1e-3 } else { *b0 };
+            let cr = a.cross(&b);
+            if cr.norm() < 1e-6 { continue; } // parallel pairs are exercised below
+            let want = expected_frame(a, &b, *pi, *si);
+            for o in origins.iter() {
+                r.case();
+                let d = || format!("Iso3::{}({:?}, {:?}, {:?})", cname, a.as_slice(), b.as_slice(), o.map(|p| (p.x, p.y, p.z)));
+                match ctor(a, &b, *o) {
+                    Err(_) => r.check(false, "frame constructor succeeds for non-parallel, non-zero vectors", d),
+                    Ok(f) => {
+                        let m: Matrix3<f64> = f.rotation.to_rotation_matrix().into_inner();
+                        let og = o.unwrap_or(p3(0.0, 0.0, 0.0));
+                        r.check(cp3(&(f * Point3::origin()), &og), "frame constructor maps the origin to the given point", d);
+                        if is_half_turn(&want) {
+                            r.check((m - want).norm() <= E, HALF_TURN3, d);
+                            continue;
+                        }
+                        r.check(((m.transpose() * m) - Matrix3::identity()).norm() <= E, "frame constructor returns an orthonormal frame", d);
+                        r.check(close(m.determinant(), 1.0), "frame constructor returns a proper (right-handed) rotation", d);
+                        let prim = f * axes[*pi]; let sec = f * axes[*si];
+                        r.check(cv3(&prim, &a.normalize()), "frame constructor: the primary axis is exactly the normalised first argument", d);
+                        r.check(sec.dot(&b) > 0.0, "frame constructor: the secondary axis lies on the side of the second argument", d);
+                        r.check(sec.dot(&cr.normalize()).abs() <= E && sec.dot(&a.normalize()).abs() <= E, "frame constructor: the secondary axis lies in the plane of the two arguments, orthogonal to the primary axis", d);
+                        let third = 3 - pi - si;
+                        let sign = if (pi + 1) % 3 == *si { 1.0 } else { -1.0 };
+                        r.check(cv3(&(f * axes[third]), &(prim.cross(&sec) * sign)), "frame constructor: the third axis completes a right-handed frame", d);
+                        r.check((m - want).norm() <= 10.0 * E, "frame constructor returns the frame (normalised first argument, orthogonalised second argument, right-handed third axis)", d);
+                    }
+                }
+            }
+        } }
+        // parallel or zero inputs fail rather than returning garbage
+        let bad = [(v3(1.0, 2.0, 2.0), v3(2.0, 4.0, 4.0)), (v3(1.0, 2.0, 2.0), v3(-1.0, -2.0, -2.0)), (v3(0.0, 0.0, 3.0), v3(0.0, 0.0, 0.5)),
+            (v3(0.0, 0.0, 0.0), v3(0.0, 1.0, 0.0)), (v3(1.0, 0.0, 0.0), v3(0.0, 0.0, 0.0)), (v3(0.0, 0.0, 0.0), v3(0.0, 0.0, 0.0))];
+        for (a, b) in bad.iter() {
+            r.case();
+            r.check(ctor(a, b, Some(p3(1.0, 2.0, 3.0))).is_err(), "frame constructor fails for parallel or zero inputs", || format!("Iso3::{}({:?}, {:?}, ..)", cname, a.as_slice(), b.as_slice()));
+        }
+    }
+    // iso3_from_xyo / iso3_from_basis: the world-to-frame isometry of (x, y-ish, origin)
+    for a in firsts.iter() { for b in seconds.iter().take(10) {
+        if a.cross(b).norm() < 1e-6 { continue; }
+        r.case();
+        let o = p3(1.0, 2.0, 3.0);
+        let d = || format!("x = normalize {:?}, y = normalize {:?}, origin (1, 2, 3)", a.as_slice(), b.as_slice());
+        let x = UnitVec3::new_normalize(*a); let y = UnitVec3::new_normalize(*b);
+        let yo = UnitVec3::new_normalize(y.into_inner() - x.into_inner() * x.dot(&y));
+        let half = is_half_turn(&expected_frame(a, b, 0, 1));
+        let f = iso3_from_xyo(&x, &y, &o);
+        let m: Matrix3<f64> = f.rotation.to_rotation_matrix().into_inner();
+        let fy = f * y.into_inner();
+        let ok_xyo = ((m.transpose() * m) - Matrix3::identity()).norm() <= E && close(m.determinant(), 1.0)
+            && (f * o).coords.norm() <= E * 10.0 && cp3(&(f * (o + x.into_inner())), &p3(1.0, 0.0, 0.0)) && fy.y > 0.0 && fy.z.abs() <= E;
+        r.check(ok_xyo, if half { HALF_TURN_B3 } else { "iso3_from_xyo: proper rotation taking the origin point to 0, the x direction to x and the y argument into the upper xy half-plane" }, || format!("iso3_from_xyo: {}", d()));
+        // orthonormal input basis (lengths are irrelevant, the third vector is ignored)
+        let g = iso3_from_basis(&[x.into_inner() * 2.0, yo.into_inner() * 0.5, Vector3::zeros()], &o);
+        let ok_basis = (g * o).coords.norm() <= E * 10.0 && cp3(&(g * (o + x.into_inner())), &p3(1.0, 0.0, 0.0)) && cp3(&(g * (o + yo.into_inner())), &p3(0.0, 1.0, 0.0)) && cp3(&(g * (o + x.cross(&yo))), &p3(0.0, 0.0, 1.0));
+        r.check(ok_basis, if half { HALF_TURN_B3 } else { "iso3_from_basis takes origin, first and second axis to 0, x, y and is right-handed" }, || format!("iso3_from_basis: {}", d()));
+    } }
+    // iso2_from_basis: first axis in 12 directions
+    for (bx, by) in [(1.0, 0.0), (-1.0, 0.0), (0.0, 1.0), (0.0, -2.0), (3.0, 4.0), (-3.0, 4.0), (-1.0, -1.0), (1.0, -1e-3), (-1.0, 1e-3), (-1.0, -1e-9), (-0.6, 0.8), (0.28, -0.96)] {
+        r.case();
+        let o = Point2::new(1.0, 2.0);
+        let b0 = Vector2::new(bx, by);
+        let f = iso2_from_basis(&[b0, Vector2::zeros()], &o);
+        let n = b0.normalize();
+        let ok = (f * o).coords.norm() <= E * 10.0 && cp2(&(f * (o + n)), &Point2::new(1.0, 0.0)) && cp2(&(f * (o + Vector2::new(-n.y, n.x))), &Point2::new(0.0, 1.0));
+        r.check(ok, if bx < 0.0 && by == 0.0 { HALF_TURN_B2 } else { "iso2_from_basis takes the origin to 0, the first axis to x and is right-handed" }, || format!("iso2_from_basis([{:?}, ..], (1, 2))", (bx, by)));
+    }
+}
+
+pub fn run() -> Option<Report> {
+    let mut r = Report::new("planes: 6 non-collinear point triples, 4 (normal, point) pairs / surface points, 4 queries; principal axes: 8 point sets in 3D (generic, skew, planar, collinear, coincident; weights from {0.5..4}) and 4 in 2D, weight scale factors {2, 0.5, 8}, 76 (3D) / 24 (2D) isometries (quarter turns, 30/45 degrees, general axis, translations up to 1000); singular vectors compared up to sign and only where singular values are separated by > 1e-3 of the largest; frame constructors: six try_from_basis_* x 5 first x 6 second arguments (skew, unequal lengths, one nearly parallel pair at 1e-3) x 3 origins, 6 parallel / zero pairs each; iso3_from_xyo / iso3_from_basis / iso2_from_basis / Iso3::from(&SvdBasis3); all comparisons to 1e-9");
+    planes(&mut r);
+    svd3(&mut r);
+    svd2(&mut r);
+    frames(&mut r);
+    Some(r)
+}
